@@ -283,7 +283,8 @@ def trace_check_par(wd, name, trace, props, nkeys, layer_i=True, parts=8, min_ev
     with open(trace) as f:
         lines = f.readlines()
     starts = [i for i, l in enumerate(lines) if '"ev":"Config"' in l or '"ev": "Config"' in l]
-    n = max(1, min(parts, len(lines) // max(1, min_events)))
+    # up to `parts` runs at a time; no part much longer than 40 000 events (TLC holds a part in memory)
+    n = max(1, min(parts, len(lines) // max(1, min_events)), -(-len(lines) // 40000))
     if n <= 1 or len(starts) < 2:
         return trace_check(wd, name, trace, props, nkeys, layer_i=layer_i, **kw)
     target = len(lines) / n
@@ -304,7 +305,7 @@ def trace_check_par(wd, name, trace, props, nkeys, layer_i=True, parts=8, min_ev
         return j, off, trace_check(wd, "%s_p%d" % (name, j), part, props, nkeys, layer_i=layer_i, quiet=True, **kw)
     t0 = time.time()
     try:
-        with concurrent.futures.ThreadPoolExecutor(max_workers=len(jobs)) as ex:
+        with concurrent.futures.ThreadPoolExecutor(max_workers=min(parts, len(jobs))) as ex:
             outs = list(ex.map(one, jobs))
     finally:
         for _, part, _ in jobs:
